@@ -714,8 +714,9 @@ def main():
     jobs = [(h.tier, h.seed, list(range(k, len(types), WORKERS))) for k in range(WORKERS)]
     import multiprocessing
 
-    with multiprocessing.get_context("fork").Pool(WORKERS) as pool:
-        results = pool.map(work, jobs)
+    # one fresh forked process per job (a process that happened to serve two jobs would carry caches of the code under test over)
+    with multiprocessing.get_context("fork").Pool(WORKERS, maxtasksperchild=1) as pool:
+        results = pool.map(work, jobs, chunksize=1)
     per_type = sorted((r for chunk in results for r in chunk), key=lambda r: r[0])
     slots, order, stats, contract = {}, {}, {}, 0
     for i, n_ok, events, distinct, samples, order_i, stats_i, contract_i in per_type:
